@@ -6,7 +6,7 @@ Import ListNotations.
 From PV.Lib Require Import RealAux.
 From PV.Model Require Import HelixSpec.
 From PV.Gen Require Import HelixCode.
-From PV.Props Require Import HelixCommon HelixLaws.
+From PV.Props Require Import HelixCommon HelixLaws C12Proofs C11ErrProofs.
 Local Open Scope R_scope.
 
 Theorem C11_pivot_identity : forall atan2, atan2_spec atan2 -> forall kappa tanl, kappa <> 0 ->
@@ -57,3 +57,49 @@ Print Assumptions C11_outputs_are_canonical.
 
 Example C11_canonical_satisfiable : canonical 2 {| h_dr := 1; h_phi0 := 1; h_dz := 0; h_x := 0; h_y := 0; h_z := 0 |}.
 Proof. exact canonical_example. Qed.
+
+(* ---------------------------------------------------------------- the error matrix is part of the result *)
+(* Jmove h p = the regenerated 5 x 5 Jacobian of the pivot change of state h to p (entries cp_obj_J.. with r = HelixObject.radius);
+   turn h p = the turning angle the code computes for that move; JEJt J E = J E J^T; carry h ps E = E moved along ps step by step *)
+
+(* within half a turn the turning angles of successive moves add up to the turning angle of the direct move *)
+Theorem C11_turning_angles_add : forall atan2, atan2_spec atan2 -> forall kappa tanl, kappa <> 0 -> forall h p1 p2,
+  off_centre kappa h p1 ->
+  - PI < turn atan2 kappa tanl h p1 + turn atan2 kappa tanl (move atan2 kappa tanl h p1) p2 < PI ->
+  turn atan2 kappa tanl h p2 = turn atan2 kappa tanl h p1 + turn atan2 kappa tanl (move atan2 kappa tanl h p1) p2.
+Proof. exact turns_add. Qed.
+Print Assumptions C11_turning_angles_add.
+
+(* chain rule of the regenerated Jacobian: J(h -> p2) = J(h1 -> p2) J(h -> p1) *)
+Theorem C11_jacobian_chain_rule : forall atan2, atan2_spec atan2 -> forall kappa tanl, kappa <> 0 -> forall h p1 p2,
+  off_centre kappa h p1 ->
+  - PI < turn atan2 kappa tanl h p1 + turn atan2 kappa tanl (move atan2 kappa tanl h p1) p2 < PI ->
+  forall i j, (i < 5)%nat -> (j < 5)%nat ->
+  mmul (Jmove atan2 kappa tanl (move atan2 kappa tanl h p1) p2) (Jmove atan2 kappa tanl h p1) i j = Jmove atan2 kappa tanl h p2 i j.
+Proof. exact jacobian_chain_2. Qed.
+Print Assumptions C11_jacobian_chain_rule.
+
+(* any error matrix E (no symmetry or definiteness needed), any finite sequence of pivots whose accumulated turning angle stays
+   within half a turn: moving E step by step = moving it directly to the last pivot, entry by entry *)
+Theorem C11_error_matrix_path_independent : forall atan2, atan2_spec atan2 -> forall kappa tanl, kappa <> 0 -> forall h q ps E,
+  off_centre kappa h q ->
+  turns_within atan2 kappa tanl (move atan2 kappa tanl h q) (turn atan2 kappa tanl h q) ps ->
+  all_off_centre atan2 kappa tanl (move atan2 kappa tanl h q) ps ->
+  forall i j, (i < 5)%nat -> (j < 5)%nat ->
+  carry atan2 kappa tanl h (q :: ps) E i j = JEJt (Jmove atan2 kappa tanl h (last ps q)) E i j.
+Proof. exact error_path_independent. Qed.
+Print Assumptions C11_error_matrix_path_independent.
+
+(* the Jacobian used above is the code's, in closed form *)
+Theorem C11_jacobian_closed_form : forall atan2 dr phi0 kappa dz tanl x0 y0 z0 x1 y1 z1, kappa <> 0 -> forall i j,
+  Jcode atan2 dr phi0 kappa dz tanl x0 y0 z0 x1 y1 z1 i j =
+  Jabs (r kappa) kappa tanl (r kappa + dr) (1 / (sg kappa * rho dr phi0 kappa x0 y0 x1 y1))
+       (dphi atan2 dr phi0 kappa dz tanl x0 y0 z0 x1 y1 z1) i j.
+Proof. exact Jcode_is_Jabs. Qed.
+Print Assumptions C11_jacobian_closed_form.
+
+Example C11_chain_hypotheses_satisfiable :
+  off_centre 2 hex (0, 0, 0) /\
+  turns_within atan2_c 2 1 (move atan2_c 2 1 hex (0, 0, 0)) (turn atan2_c 2 1 hex (0, 0, 0)) [(0, 0, 0)] /\
+  all_off_centre atan2_c 2 1 (move atan2_c 2 1 hex (0, 0, 0)) [(0, 0, 0)].
+Proof. exact chain_hyps_example. Qed.
